@@ -433,8 +433,38 @@ def protocol_cases():
     return None
 
 
+def cookie_mechanism_case():
+    """the real DBUS_COOKIE_SHA1 mechanism object (keyring in a temporary directory): a response that is not
+    '<client challenge> <sha1 of server:client:cookie>' is never accepted - malformed (not two tokens), empty, wrong hash"""
+    import os, shutil, tempfile, hashlib
+    from txdbus import authentication
+    tmp = tempfile.mkdtemp(prefix='verif_c06_')
+    try:
+        bads = [b'deadbeef', b'', b'a b c', b'abcd ' + b'0' * 40, b' ', b'abcd']
+        for bad in bads:
+            m = authentication.BusCookieAuthenticator()
+            try:
+                st = m._step_one(str(os.getuid()), os.path.join(tmp, 'keyring'))
+            except Exception as e:
+                return 'cookie mechanism, first step raised %s: %s' % (type(e).__name__, e)
+            if st[0] != 'CONTINUE':
+                return 'cookie mechanism, first step answered %r' % (st,)
+            try:
+                r = m._step_two(bad)
+            except Exception as e:
+                r = ('raised', type(e).__name__)
+            if r[0] == 'OK':
+                return 'cookie mechanism accepted the wrong response %r' % (bad,)
+    finally:
+        shutil.rmtree(tmp, ignore_errors=True)
+    return None
+
+
 def bounded(tier, seed):
-    n = 0
+    n = 1
+    f = cookie_mechanism_case()
+    if f:
+        return n, f, {'case': 'cookie mechanism'}
     depth = 4 if tier == 'thorough' else 3
     small = [ALPHABET[i] for i in (0, 1, 2, 3, 5, 8, 9, 10, 12)]
     for L in range(1, depth + 1):
